@@ -39,12 +39,20 @@ def lattice(tier):
         if dt == "float32" and vc in ("denormal", "huge", "simple-flx", "near-max"):
             continue  # not representable
         yield {"nt": nt, "ns": ns, "threed": threed, "values": vc, "dtype": dt, "ts": ts, "forcing": forcing}
+        if vc == "index" and dt == "float64" and forcing != "z0-scalar" and ts in ("iso", "index"):
+            # the result set is not simply "every step of the configuration in order": steps picked from a longer forcing in
+            # another order (single runs assembled by the caller), or the configuration object edited after the runs
+            for asm in ("picked-steps", "config-edited"):
+                yield {"nt": nt, "ns": ns, "threed": threed, "values": vc, "dtype": dt, "ts": ts, "forcing": forcing, "assembly": asm}
 
 
 def build(case):
     from bldfm.config_parser import parse_config_dict
 
-    nt, ns = case["nt"], case["ns"]
+    nt, ns_out = case["nt"], case["ns"]
+    asm = case.get("assembly", "all")
+    ns = ns_out + 2 if asm == "picked-steps" else ns_out  # length of the forcing
+    steps = list(range(ns - 1, 1, -1))[:ns_out] if asm == "picked-steps" else list(range(ns_out))
     met = {"mol": [-50.0 - 3 * i for i in range(ns)], "wind_speed": [2.0 + 0.5 * i for i in range(ns)], "wind_dir": [10.0 + 70 * i for i in range(ns)]}
     if case["forcing"] == "ustar":
         met["ustar"] = [0.3 + 0.05 * i for i in range(ns)]
@@ -60,10 +68,10 @@ def build(case):
         met["timestamps"] = ["2024-03-%02dT06:30" % (i + 1) for i in range(ns)]
     elif case["ts"] == "width":
         # labels of different printed widths, narrowest first (integers crossing a power of ten, mixed date / date-time strings)
-        met["timestamps"] = ([8, 9, 10, 11] if case["nt"] % 2 else ["9:30", "10:00", "2024-03-01", "2024-03-01T10:00"])[:ns]
+        met["timestamps"] = ([8, 9, 10, 11, 12, 13] if case["nt"] % 2 else ["9:30", "10:00", "2024-03-01", "2024-03-01T10:00", "x", "y"])[:ns]
     elif case["ts"] == "epoch":
         # numeric labels with many significant digits: seconds since 1970 (integers), fractional day numbers (floats)
-        met["timestamps"] = ([1709272800, 1709274600, 1709276400, 1709278200] if case["nt"] % 2 else [20240301.25, 20240301.5, 20240301.75, 20240302.0])[:ns]
+        met["timestamps"] = ([1709272800, 1709274600, 1709276400, 1709278200, 1709280000, 1709281800] if case["nt"] % 2 else [20240301.25, 20240301.5, 20240301.75, 20240302.0, 20240302.25, 20240302.5])[:ns]
     cfg = parse_config_dict({
         "domain": {"nx": NX, "ny": NY, "xmax": 50.0, "ymax": 45.0, "nz": 4, "ref_lat": 50.0, "ref_lon": 10.0},
         "towers": [{"name": n, "lat": la, "lon": lo, "z_m": z} for n, la, lo, z in TOW[:nt]],
@@ -74,7 +82,7 @@ def build(case):
     res = {}
     for ti, t in enumerate(cfg.towers):
         lst = []
-        for s in range(ns):
+        for s in steps:
             if case["threed"]:
                 Z, Y, X = np.meshgrid(zl, y, x, indexing="ij")
                 l, j, i = np.meshgrid(np.arange(2), np.arange(NY), np.arange(NX), indexing="ij")
@@ -106,6 +114,12 @@ def build(case):
                 stamp = "2024-05-%02dT00:00" % (s + 1)
             lst.append({"grid": (X, Y, Z), "conc": conc.astype(case["dtype"]), "flx": flx.astype(case["dtype"]), "tower_name": t.name, "tower_xy": (t.x, t.y), "timestamp": stamp, "params": dict(step)})
         res[t.name] = lst
+    if asm == "config-edited":
+        # the caller goes on working with the configuration object (next experiment) before saving the finished results
+        for fld in ("ustar", "wind_dir", "mol", "wind_speed"):
+            val = getattr(cfg.met, fld)
+            if isinstance(val, list):
+                setattr(cfg.met, fld, [vv_ * 1.5 + 1.0 for vv_ in val])
     return cfg, res, x, y, zl
 
 
@@ -221,6 +235,61 @@ def case_history(case):
     return {"v": v[:4], "nt": len(case["ops"]) > 1, "n": n}
 
 
+def case_held_open(case):
+    """a result set is saved onto a path whose previous content is still held open by the dataset an earlier load returned
+    (lazy loading keeps the file open until the caller closes it), with the working directory elsewhere: the save either
+    raises and leaves the old file intact, or returns - and then the next load of that path is the NEW result set.
+    Nothing is written anywhere else."""
+    import pathlib
+    import shutil
+
+    from bldfm.io import load_footprints_from_netcdf, save_footprints_to_netcdf
+
+    a, b = case["sets"]
+    outdir = os.path.join(os.getcwd(), "out_%s" % core.case_hash(case))
+    os.makedirs(outdir, exist_ok=True)
+    path = os.path.join(outdir, "results.nc")
+    arg = pathlib.Path(path) if case["path_form"] == "Path" else path
+    v = []
+
+    def bad(sub, msg):
+        v.append({"sub": "held-open", "sig": "held-open/" + sub, "msg": "%s; case %s" % (msg, core.canon(case))})
+
+    held = None
+    try:
+        cfgA, resA, xA, yA, zA = build(HIST_SETS[a])
+        cfgB, resB, xB, yB, zB = build(HIST_SETS[b])
+        save_footprints_to_netcdf(resA, cfgA, arg)
+        before = set(os.listdir(os.getcwd()))
+        if case["hold"]:
+            held = load_footprints_from_netcdf(arg)
+            _ = held["footprint"].shape  # looked at, not closed
+        try:
+            save_footprints_to_netcdf(resB, cfgB, arg)
+            outcome = "returned"
+        except Exception as e:  # noqa
+            outcome = "raised " + type(e).__name__
+        if held is not None:
+            held.close()
+            held = None
+        stray = sorted(set(os.listdir(os.getcwd())) - before)
+        if stray:
+            bad("stray-file", "the save wrote %r into the working directory (requested path: %s)" % (stray, path))
+        cfgW, resW, xW, yW, zW, thr = (cfgB, resB, xB, yB, zB, HIST_SETS[b]["threed"]) if outcome == "returned" else (cfgA, resA, xA, yA, zA, HIST_SETS[a]["threed"])
+        ds = load_footprints_from_netcdf(arg)
+        try:
+            _compare_loaded(ds, cfgW, resW, xW, yW, zW, thr, lambda sub, msg: bad("%s-after-%s" % (sub, outcome.split()[0]), "second save %s; the file then holds something else than %s: %s" % (outcome, "the new result set" if outcome == "returned" else "the old one", msg)))
+        except Exception as e:  # noqa
+            bad("structure", "second save %s; the file cannot be read as %s (%s: %s)" % (outcome, "the new result set" if outcome == "returned" else "the old one", type(e).__name__, str(e)[:100]))
+        finally:
+            ds.close()
+    finally:
+        if held is not None:
+            held.close()
+        shutil.rmtree(outdir, ignore_errors=True)
+    return {"v": v[:4], "nt": True, "n": 2, "obs": {"second_save": outcome}}
+
+
 def case_solver(case):
     from bldfm.config_parser import parse_config_dict
     from bldfm.interface import run_bldfm_multitower
@@ -257,5 +326,7 @@ def run(ctx):
     alphabet = [(p, k) for p in (0, 1) for k in range(len(HIST_SETS))]
     hist = [{"ops": [list(o) for o in h]} for d in range(2, depth + 1) for h in itertools.product(alphabet, repeat=d) if len({o[0] for o in h}) < len(h)]
     ctx.run_cases(case_history, hist, sub="same-path-histories")
+    ctx.run_cases(case_held_open, [{"sets": [a_, b_], "hold": h_, "path_form": pf_} for a_, b_ in itertools.permutations(range(len(HIST_SETS)), 2) for h_ in (True, False) for pf_ in ("str", "Path")],
+                  sub="save onto a file an earlier load still holds open")
     sc = [{"threed": a, "forcing": b, "footprint": c, "prec": d} for a, b, c, d in itertools.product((False, True), ("ustar", "z0"), (True, False), ("single", "double"))]
     ctx.run_cases(case_solver, sc, sub="solver-produced", chunksize=1)
